@@ -741,6 +741,17 @@ func (h *HttpServer) handleExchangeCall(ctx context.Context, w http.ResponseWrit
 		InputMetadata: stripFrameworkTickMetadata(inputMeta),
 	}
 
+	// The batch itself still carries the request's custom metadata — sealed
+	// cursor and call token included — so hand the state a view of the same
+	// columns whose metadata is the stripped set the CallContext shows;
+	// otherwise a handler reading the batch's own metadata sees the tokens.
+	if bwm, ok := inputBatch.(arrow.RecordBatchWithMetadata); ok && bwm.Metadata().Len() > 0 {
+		clean := array.NewRecordBatchWithMetadata(inputBatch.Schema(), inputBatch.Columns(), inputBatch.NumRows(),
+			stripFrameworkTickMetadata(bwm.Metadata()))
+		defer clean.Release()
+		inputBatch = clean
+	}
+
 	var exchangeErr error
 	func() {
 		defer func() {
